@@ -164,7 +164,14 @@ pub fn err_json(n: &dyn Namer, e: &ModuleError) -> Value {
     Some(r) => n.id(r.specifier.as_str()),
     None => "-".to_string(),
   };
-  json!({"k": "err", "ek": module_err_kind(e), "ref": r})
+  let mut v = json!({"k": "err", "ek": module_err_kind(e), "ref": r});
+  if let ModuleErrorKind::Load { err: ModuleLoadError::Jsr(JsrLoadError::UnknownExport { exports, export_name, .. }), .. } = e.as_kind() {
+    let mut ex = exports.clone();
+    ex.sort();
+    v["exports"] = json!(ex);
+    v["export"] = json!(export_name);
+  }
+  v
 }
 
 /// Specifiers whose slot is still `Pending` (only visible through serialisation).
